@@ -4,4 +4,5 @@ Extraction "c18_model.ml" name_to_uuid java_name_uuid bot_auth_digest server_aut
   java_hex signed_be lb_run pem_lines pem_line_length pem_payload verify_signature pk_verify
   enc_response aes_key_ok encrypt_secret hash_writer
   offline_NameToUUID bot_authDigest auth_authDigest user_lineBreaker_Write user_lineBreaker_Close
-  user_VerifySignature user_PublicKey_Verify auth_encryptionResponse.
+  user_VerifySignature user_PublicKey_Verify auth_encryptionResponse
+  auth_Encrypt bot_handleEncryptionRequest.
